@@ -46,6 +46,10 @@ type c14Log struct {
 	bad          string
 	rootRepl     dst.Node
 	resultIsRepl bool
+	// an insert / replace executed through the cursor of a node that Delete was already called on,
+	// in the same callback or in the post callback of the same visit (the recorded finding)
+	opAfterDelete bool
+	deleted       map[interface{}]bool
 }
 
 func kindOf(n interface{}) string {
@@ -116,7 +120,7 @@ func firstBodyAst(f *ast.File) ast.Node {
 }
 
 func c14RunDst(in c14Input, f *dst.File) (res dst.Node, lg *c14Log, pm string) {
-	lg = &c14Log{visited: map[interface{}]int{}, created: map[interface{}]bool{}, edited: map[interface{}]bool{}}
+	lg = &c14Log{visited: map[interface{}]int{}, created: map[interface{}]bool{}, edited: map[interface{}]bool{}, deleted: map[interface{}]bool{}}
 	counter := 0
 	mk := func(phase string, steps map[string]c14Step) dstutil.ApplyFunc {
 		return func(c *dstutil.Cursor) bool {
@@ -175,6 +179,9 @@ func c14RunDst(in c14Input, f *dst.File) (res dst.Node, lg *c14Log, pm string) {
 					if nn == nil {
 						continue
 					}
+					if lg.deleted[n] {
+						lg.opAfterDelete = true
+					}
 					switch op {
 					case "replace":
 						lg.created[nn] = true
@@ -182,6 +189,7 @@ func c14RunDst(in c14Input, f *dst.File) (res dst.Node, lg *c14Log, pm string) {
 						c.Replace(nn)
 					case "delete":
 						lg.edited[n] = true
+						lg.deleted[n] = true
 						c.Delete()
 					case "before":
 						lg.created[nn] = true
@@ -392,7 +400,7 @@ func c14Check(in c14Input) (key, what string) {
 		for n := range lg.created {
 			if lg.visited[n] > 0 {
 				k := "c14-visit-inserted"
-				if hasInsertAfterDelete(in) {
+				if hasInsertAfterDelete(in) || lg.opAfterDelete {
 					k = "delete-then-insert-same-visit"
 				}
 				return k, fmt.Sprintf("an inserted / replacement %s node was visited", kindOf(n))
@@ -404,7 +412,7 @@ func c14Check(in c14Input) (key, what string) {
 			for _, n := range fin {
 				if orig[n] && lg.visited[n] != 1 && !underCreated(dfile, n, lg.created) {
 					k := "c14-visit-once"
-					if hasInsertAfterDelete(in) {
+					if hasInsertAfterDelete(in) || lg.opAfterDelete {
 						k = "delete-then-insert-same-visit"
 					}
 					return k, fmt.Sprintf("a surviving original %s node was visited %d times", kindOf(n), lg.visited[n])
